@@ -95,12 +95,8 @@ func (r *run) inputs(ins []*dig.Input) [][]interface{} {
 	for _, in := range ins {
 		v := reflect.ValueOf(in).Elem()
 		t, _ := peek(v.FieldByName("t")).(reflect.Type)
-		out = append(out, []interface{}{
-			r.ts.id(t),
-			v.FieldByName("name").String(),
-			v.FieldByName("group").String(),
-			v.FieldByName("optional").Bool(),
-		})
+		name, group, optional := v.FieldByName("name").String(), v.FieldByName("group").String(), v.FieldByName("optional").Bool()
+		out = append(out, checkInfoString([]interface{}{r.ts.id(t), name, group, optional}, in.String(), t, optional, name, group))
 	}
 	return out
 }
@@ -111,11 +107,8 @@ func (r *run) outputs(outs []*dig.Output) [][]interface{} {
 	for _, o := range outs {
 		v := reflect.ValueOf(o).Elem()
 		t, _ := peek(v.FieldByName("t")).(reflect.Type)
-		out = append(out, []interface{}{
-			r.ts.id(t),
-			v.FieldByName("name").String(),
-			v.FieldByName("group").String(),
-		})
+		name, group := v.FieldByName("name").String(), v.FieldByName("group").String()
+		out = append(out, checkInfoString([]interface{}{r.ts.id(t), name, group}, o.String(), t, false, name, group))
 	}
 	return out
 }
